@@ -255,6 +255,7 @@ fn run_check(
             index: i,
             tier: tier_name(tier).to_string(),
             want_case: i < 3 || only.is_some(),
+            base: seed,
         });
     }
     let wall_cap = match tier {
@@ -281,7 +282,7 @@ fn run_check(
             harness.push(format!("run {}: {}", r.index, e));
             continue;
         }
-        evaluations += 1;
+        evaluations += 1 + r.sub_runs;
         hashes.insert(r.index, r.hash);
         if r.nontrivial {
             sigs.insert(r.signature);
@@ -318,6 +319,23 @@ fn run_check(
                 unknown.push((r.clone(), v.clone()));
             }
         }
+        for s in &r.sub_signatures {
+            sigs.insert(*s);
+        }
+        for sf in &r.sub_failures {
+            total_violations += sf.count;
+            let key = format!("{}|{}", sf.violation.kind, summarise(&sf.violation.detail));
+            *kinds.entry(key).or_insert(0) += sf.count;
+            if let Some(f) = match_finding(&findings, &sf.violation) {
+                *known_hits.entry(f.id.clone()).or_insert(0) += sf.count;
+            } else {
+                let mut rr = r.clone();
+                rr.case = Some(sf.case.clone());
+                rr.hash = sf.hash;
+                rr.sub_failures.clear();
+                unknown.push((rr, sf.violation.clone()));
+            }
+        }
     }
     // determinism self-check: re-run a sample of the seeds and compare fingerprints
     let mut recheck = Vec::new();
@@ -329,6 +347,7 @@ fn run_check(
             index: r.index,
             tier: tier_name(tier).to_string(),
             want_case: false,
+            base: seed,
         });
     }
     let re = pool.run_all(recheck, 120.0);
@@ -712,6 +731,7 @@ fn selftest_determinism(pool: &mut pool::Pool, seed: u64, args: &[String]) -> i3
                     index: i,
                     tier: "quick".into(),
                     want_case: false,
+                    base: seed,
                 })
                 .collect()
         };
